@@ -653,11 +653,12 @@ func (g *gen) structType(d int, exported bool) *Ty {
 		tag := pick(g, "tag", fieldTags...)
 		// recorded finding: the XML encoder model follows self-referential pointer types without end for
 		// comment and innerxml fields; excluded by not drawing those tags
-		if g.chance(10, "xmlindirect") && g.include("no-termination") {
+		ft := g.anyType(d)
+		if (g.chance(10, "xmlindirect") || ft.Rec && g.chance(50, "xmlindirectrec")) && g.include("no-termination") {
 			tag = pick(g, "xmltag", xmlIndirectTags...)
 			g.feat("xml_indirect_tag")
 		}
-		s.Fields = append(s.Fields, Field{Name: name, T: g.anyType(d), Tag: tag})
+		s.Fields = append(s.Fields, Field{Name: name, T: ft, Tag: tag})
 	}
 	return s
 }
